@@ -65,6 +65,10 @@ func (m *Manager) lazyAggregationLoop(ctx context.Context, blockTimer *time.Time
 			if err := m.produceBlock(ctx, "lazy_timer", lazyTimer, blockTimer); err != nil {
 				return err
 			}
+
+			// The block just produced answers every notification received so far;
+			// one that arrived during production is still queued in txNotifyCh.
+			m.txsAvailable = false
 		case <-blockTimer.C:
 			if m.txsAvailable {
 				if err := m.produceBlock(ctx, "block_timer", lazyTimer, blockTimer); err != nil {
